@@ -5,7 +5,8 @@ A == <<"a">>
 AB == <<"a", "b">>
 ABC == <<"a", "b", "c">>
 B == <<"b">>
-I(n, p, s, d, t, l) == [name |-> n, params |-> p, signed |-> s, digOk |-> d, tok |-> t, life |-> l]
+I(n, p, s, d, t, l) == [name |-> n, params |-> p, pe |-> FALSE, signed |-> s, digOk |-> d, tok |-> t, life |-> l]
+PE(x) == [x EXCEPT !.pe = TRUE]      \* the same Interest with empty (zero-length) ApplicationParameters
 
 N_tree == {R, A, AB, ABC, B}
 N_small == {A, AB, ABC}
@@ -13,10 +14,12 @@ N_small == {A, AB, ABC}
 I_route == { I(n, FALSE, FALSE, TRUE, 0, 1) : n \in N_tree }
 \* gate: every combination of parameters / signature / digest correctness on one nested name
 \* (signed => params; without params or signature there is no digest to get wrong)
-I_gate == { x \in { I(AB, p, s, d, 0, 1) : p \in BOOLEAN, s \in BOOLEAN, d \in BOOLEAN } :
+I_gate0 == { x \in { I(AB, p, s, d, 0, 1) : p \in BOOLEAN, s \in BOOLEAN, d \in BOOLEAN } :
               (x.signed => x.params) /\ (~x.params => x.digOk) }
+I_gate == I_gate0 \cup { PE(x) : x \in { y \in I_gate0 : y.params } }
 \* reply / token: lifetimes 1,2 and tokens none, t1, t2
-I_reply == { I(AB, FALSE, FALSE, TRUE, t, l) : t \in 0..2, l \in 1..2 }
+\* lifetime 0 (the Interest expires at once) included
+I_reply == { I(AB, FALSE, FALSE, TRUE, t, l) : t \in 0..2, l \in 0..2 }
 I_small == { I(AB, FALSE, FALSE, TRUE, 0, 1), I(ABC, TRUE, TRUE, TRUE, 1, 1), I(A, TRUE, FALSE, FALSE, 0, 1), I(ABC, TRUE, FALSE, TRUE, 2, 2) }
 H4 == 1..4
 H6 == 1..6
@@ -28,7 +31,7 @@ V_v2two == {"PASS", "FAIL"}
 V_legacy == {"T", "F"}
 Rep_one == {"uri"}
 Rep_all == {"uri", "strlist", "byteslist", "bytearraylist", "memviewlist", "wire"}
-E_all == {"bare", "lp", "lph"}
+E_all == {"bare", "lp", "lph", "lpo"}
 E_two == {"bare", "lp"}
 J_one == {"junk"}
 J_none == {}
